@@ -1,10 +1,49 @@
 """props - which harnesses exist and which stages decide which property."""
 
 HARNESS = {
+    'bitops': dict(cpp=['h/h_bitops.cpp'], c=['adp/adp_bitops.c'], repo=['librfn/bitops.c'], gen='gen_constexpr',
+                   asan=False, ubsan=False, cflags=['-O2']),
+    'rand': dict(cpp=['h/h_rand.cpp'], c=['adp/adp_rand.c'], repo=['librfn/rand.c'], asan=False, ubsan=False,
+                 cflags=['-O2']),
     'list': dict(cpp=['h/h_list.cpp'], c=['adp/adp_list.c'], repo=['librfn/list.c']),
 }
 
 PROPS = {
+    'C16': dict(
+        title='Bit-counting helpers equal their mathematical definitions on all inputs',
+        rule='custom stage: every one of the 2^32 arguments through bitcnt/clz/ctz/ilog2 (16-way split), all 1-bit, '
+             '2-bit and contiguous-mask 64-bit patterns through const_pop/const_lssb at run time, and a generated '
+             'translation unit of ~2000 static-const initialisers (constant-expression context) compared with the '
+             'run-time value and with gcc builtins; rc stage: random 32/64-bit arguments and table entries. '
+             'Non-trivial: argument is neither 0 nor all-ones; distinct = distinct arguments (counted directly '
+             'for the exhaustive stage, by tape hash for the random stage).',
+        stages=[
+            dict(h='bitops', mode='custom', what='exhaustive 2^32 + pattern sets + constant-expression table'),
+            dict(h='bitops', mode='rc', what='random 32/64-bit arguments',
+                 quick=dict(cases=100000, len=8), thorough=dict(cases=10000000, len=8)),
+        ],
+        require={'32-bit arguments (all four functions)': 1 << 32, 'constant-expression table entries': 1000},
+        assumptions=['gcc __builtin_popcount/clz/ctz are the reference definitions',
+                     'static-const initialisers are a constant-expression context, so the macros were folded at compile time'],
+        level_text='exhaustive for the four 32-bit functions (all 2^32 arguments on every run); sampled (pattern sets + random) for the 64-bit macros',
+    ),
+    'C17': dict(
+        title='rand31_r is exactly the Park-Miller minimal standard generator',
+        rule='custom stage: every state s in 1..2^31-2 (16-way split): result == new state == 16807*s mod (2^31-1) '
+             'in 64-bit arithmetic and in range; thorough adds the walk of the single trajectory from 1 (must close '
+             'after exactly 2^31-2 steps); rc stage: random states incl. both ends. Every state is a distinct, '
+             'non-trivial case.',
+        stages=[
+            dict(h='rand', mode='custom', what='all 2^31-2 states vs 64-bit arithmetic'),
+            dict(h='rand', mode='custom', what='period walk from state 1', tiers=('thorough',), params=dict(period=1),
+                 workers=1),
+            dict(h='rand', mode='rc', what='random states', quick=dict(cases=50000, len=4),
+                 thorough=dict(cases=2000000, len=4)),
+        ],
+        require={'states checked against 64-bit reference': (1 << 31) - 2},
+        assumptions=['64-bit unsigned multiplication and remainder in the harness are the reference'],
+        level_text='exhaustive: all 2^31-2 valid states on every run (quick and thorough)',
+    ),
     'C09': dict(
         title='Linked list behaves as a sequence under every order of operations',
         rule='case = choice tape decoded into (node keys, <=60 list ops over 6 nodes / 3 lists / 2 iterators); '
